@@ -470,7 +470,7 @@ pub struct StrCase {
 	pub key: u8,
 }
 
-fn run_string(c: &StrCase, st: &mut Stats) -> CaseResult {
+pub fn run_string(c: &StrCase, st: &mut Stats) -> CaseResult {
 	let s = c.s.clone();
 	engine::catch(|| s.parse::<Source>().is_ok()).map_err(|p| Failure::new(format!("C10:source-parse-{}", p.sig()), format!("Source::from_str({:?}) panicked: {}", c.s, p.msg)))?;
 	engine::catch(|| s.parse::<MA>().is_ok()).map_err(|p| Failure::new(format!("C10:ma-parse-{}", p.sig()), format!("MA::from_str({:?}) panicked: {}", c.s, p.msg)))?;
